@@ -458,10 +458,16 @@ func (e *ErrPlan) build(ctx context.Context) error {
 			ce.Meta().Add(k, v)
 		}
 	}
-	if e.Shared {
-		e.built = ce
+	var out error = ce
+	if e.Wrapped {
+		// code, message, details and metadata are those of the coded error in
+		// the chain
+		out = fmt.Errorf("while serving the call: %w", ce)
 	}
-	return ce
+	if e.Shared {
+		e.built = out
+	}
+	return out
 }
 
 func (d DetailPlan) message() proto.Message {
